@@ -1010,6 +1010,14 @@ pub fn gen_custom_deco(rng: &mut Rng) -> CustomDeco {
         ul: rng.pick(ASCII_PREFIX).to_string(),
         ol_suffix: rng.pick(&[". ", ") ", "", ":", " - "]).to_string(),
         sup: (a(rng), a(rng)),
+        // a decorator may label items any way it likes: the longest label
+        // need not be the first or the last one
+        ol_labels: match rng.below(5) {
+            0 => ["i", "ii", "iii", "iv", "v", "vi", "vii", "viii", "ix", "x"].iter().map(|s| s.to_string()).collect(),
+            1 => ["one", "two", "three", "four"].iter().map(|s| s.to_string()).collect(),
+            2 => ["", "a", "", "bbbbbbbb"].iter().map(|s| s.to_string()).collect(),
+            _ => vec![],
+        },
     }
 }
 
